@@ -139,6 +139,51 @@ theorem getWith_percall (cfg : Cfg) (d : Desc) (toks : List Nat) (key : Nat) (op
        else get cfg d toks key op now) :=
   PfC01.getWith_percall cfg d toks key op now rfCall
 
+/-! ### What a successful lookup guarantees to its callers (used by C02, C10, C11)
+
+All three hold for EVERY token circle handed to the lookup and need no well-formedness of the
+descriptor: the loop itself refuses an instance id it has already taken (`distinctHosts`). -/
+
+/-- (a) the returned instances are pairwise distinct — even their ids are. -/
+theorem get_ok_nodup (cfg : Cfg) (d : Desc) (toks : List Nat) (key : Nat) (op : Op) (now : Int) (W : RSet)
+    (h : get cfg d toks key op now = .ok W) : W.instances.Nodup ∧ (W.instances.map (·.id)).Nodup :=
+  let f := PfC01.get_ok_facts cfg d toks key op now W h
+  ⟨f.2.1, f.1⟩
+
+/-- (b) the error tolerance is in range: `0 ≤ MaxErrors < len(Instances)` (C10's `GoodGets`). -/
+theorem get_ok_tolerance (cfg : Cfg) (d : Desc) (toks : List Nat) (key : Nat) (op : Op) (now : Int) (W : RSet)
+    (h : get cfg d toks key op now = .ok W) :
+    0 ≤ W.maxErrors ∧ W.maxErrors < W.instances.length ∧
+    (0 : Int) ≤ (W.maxErrors : Int) ∧ (W.maxErrors : Int) < (W.instances.length : Int) := by
+  have f := (PfC01.get_ok_facts cfg d toks key op now W h).2.2.1
+  exact ⟨Nat.zero_le _, f, by omega, by omega⟩
+
+/-- (c) every returned instance is a registered instance of the descriptor. -/
+theorem get_ok_members (cfg : Cfg) (d : Desc) (toks : List Nat) (key : Nat) (op : Op) (now : Int) (W : RSet)
+    (h : get cfg d toks key op now = .ok W) : ∀ i ∈ W.instances, i ∈ d :=
+  (PfC01.get_ok_facts cfg d toks key op now W h).2.2.2
+
+/-! ### Heartbeat health at nanosecond resolution
+
+`InstanceDesc.IsHeartbeatHealthy` computes `now.Sub(time.Unix(ts, 0)) <= timeout`. The model's functions
+take `now` as a whole number of seconds (C13 and C02 share that signature); `isHealthyAt` is the exact
+predicate for a clock of `sec` s + `nanos` ns, and it coincides with the integer-second predicate at the
+clock ROUNDED UP — because timestamps and timeouts are whole seconds. This is why the correspondence
+run writes `now = 1` (= ceil) for lookups made at a non-zero sub-second offset of second 0. -/
+
+theorem isHealthyAt_eq_ceil (op : Op) (timeout sec : Int) (nanos : Nat) (i : Inst) (hn : nanos < 1000000000) :
+    isHealthyAt op timeout sec nanos i = isHealthy op timeout (ceilNow sec nanos) i :=
+  PfC01.isHealthyAt_eq_ceil op timeout sec nanos i hn
+
+/-- `filter_exact` restated with the nanosecond-exact health predicate. -/
+theorem filter_exact_subsecond (cfg : Cfg) (op : Op) (sec : Int) (nanos : Nat) (rf : Nat) (l : List Inst)
+    (hn : nanos < 1000000000) :
+    filter cfg op (ceilNow sec nanos) rf l =
+      (if (l.filter (isHealthyAt op cfg.hbTimeout sec nanos)).length < majority rf l.length then .error .tooManyUnhealthy
+       else .ok { instances := l.filter (isHealthyAt op cfg.hbTimeout sec nanos),
+                  maxErrors := (l.filter (isHealthyAt op cfg.hbTimeout sec nanos)).length - majority rf l.length }) :=
+  PfC01.filter_exact_subsecond cfg op sec nanos rf l hn
+
 /-! ### History: the pre-fix finding (fixed in /repo by a6b17a3) -/
 
 /-
@@ -209,5 +254,12 @@ example : (get cfg2 (ring4.filter (PfC01.keepNot "c")) (sortedTokens (ring4.filt
 -- a failing lookup: RF 4 but only two healthy ACTIVE instances in distinct zones
 example : (specGet { rf := 4, zoneAware := true } opWrite ring4 5 0).ok = false := by decide
 example : searchToken [10, 20, 30] 20 = 2 ∧ searchToken [10, 20, 30] 30 = 0 ∧ searchToken [10, 20, 30] 4294967295 = 0 := by decide
+
+-- heartbeat one timeout old, clock 300 ms into the second: age 60.3 s > 60 s -> unhealthy; exactly on the second: healthy
+example : isHealthyAt opWrite 60 0 300000000 { id := "x", ts := -60 } = false ∧ isHealthyAt opWrite 60 0 0 { id := "x", ts := -60 } = true ∧
+    isHealthyAt opWrite 60 0 300000000 { id := "x", ts := -59 } = true := by decide
+-- a successful lookup on a descriptor with a DUPLICATED entry still returns distinct instances
+example : (get { rf := 1, zoneAware := false } [{ id := "x", tokens := [5] }, { id := "x", tokens := [5] }] [5, 5] 0 opWrite 0).toOption.map
+    (fun r => r.instances.length) = some 1 := by decide
 
 end PC01
